@@ -608,19 +608,23 @@ def M_count(it, ctx, args, st):
 
 
 def pure_calls(it, ctx, clo, items, st):
-    """call clo on each item on scratch states; -> list of result terms if every call is a single normal outcome that neither
-    constrains the path nor writes to pre-existing cells (a pure predicate), else None"""
+    """call clo on each item on scratch states; -> list of result terms if every call is pure (normal outcomes only, no write to
+    pre-existing cells); several outcomes of one call are merged into one ite-term over their path conditions.  Else None."""
     outs = []
     for item in items:
         s0 = st.fork()
         n0 = len(s0.pc)
         res = list(it.call_closure(clo, [item], s0, ctx.fr))
-        if len(res) != 1 or is_abnormal(res[0][1]):
+        if not res or any(is_abnormal(r) for _, r in res):
             return None
-        s1, r = res[0]
-        if len(s1.pc) != n0 or any(s1.store.get(a) is not v for a, v in st.store.items()):
-            return None
-        outs.append(r)
+        for s1, r in res:
+            if any(s1.store.get(a) is not v for a, v in st.store.items()) or not z3.is_expr(r):
+                return None
+        term = res[-1][1]
+        for s1, r in reversed(res[:-1]):
+            c = z3.And(*s1.pc[n0:]) if len(s1.pc) > n0 else z3.BoolVal(True)
+            term = z3.If(c, r, term)
+        outs.append(term)
     return outs
 
 
@@ -631,6 +635,10 @@ def bytes_items(st, itv):
         seq = st.deref(src.fields[1])
         if isinstance(seq, BStr):
             return [(z3.ULT(bv(i), seq.len), b) for i, b in enumerate(seq.bytes)]
+    if kind == 'ptrseq' and pos == 0:
+        seq = st.deref(src)
+        if isinstance(seq, BStr):
+            return [(z3.ULT(bv(i), seq.len), Ptr(src.addr, src.proj + (('i', i),))) for i in range(len(seq.bytes))]
     if kind == 'chars' and pos == 0:
         return [(z3.ULT(bv(i), src.len), z3.ZeroExt(24, b)) for i, b in enumerate(src.bytes)]
     return None
